@@ -227,7 +227,9 @@ def specs(draw):
         pool = ['quote"dbl', "amp&er", "lt<gt>", "apos'x", "f*i", "f_i", "T_x", "T*x", "T?x", "back\\slash", "semi;colon", "hash#1", "A", "a", "percent%41", "f|i", "caf\u00e9"[:3] + "e", "x.y.z", "_", "CON", "com1"]
         # names that collide as file names come first, so that small fonts have a colliding pair too
         group = draw(st.sampled_from([["f*i", "f_i", "f|i"], ["T_x", "T*x", "T?x"], ["A", "a"], ["CON", "com1"], ['quote"dbl', "amp&er"]]))
-        picked = (group + [x for x in draw(st.permutations(pool)) if x not in group])[: ng - 1]
+        # the four XML specials come next: which of them a small font gets must not depend on luck
+        lead = group + [x for x in ['quote"dbl', "amp&er", "lt<gt>", "apos'x"] if x not in group]
+        picked = (lead + [x for x in draw(st.permutations(pool)) if x not in lead])[: ng - 1]
         ren = dict(zip(names[1:], picked))
         names = [names[0]] + [ren[n] for n in names[1:]]
         if kind in ("glyf", "var"):
@@ -671,6 +673,34 @@ def _base_bytes(spec):
         progs = list(progs) + [lead + [sc["adx"], sc["ady"], 65, 193, "endchar"]]
         widths["Agrave"] = max(0, min(16000, int(round(w))))
     return gen_t2.build_cff_font(dict(zip(names, progs)), widths, private=dict(defaultWidthX=c["dwx"], nominalWidthX=c["nwx"]), **kw)
+
+
+def pinned_specs(seed):
+    """Specifications that every run has whatever the seed draws: shapes that only a fraction of the drawn fonts have and
+    that some clause needs in order to say anything (numbers still vary with the seed)."""
+    import random
+
+    rnd = random.Random(seed * 7919 + 11)
+    nwx = rnd.choice([0, 100, 500])
+    dwx = rnd.choice([500, 600])
+
+    def box(w, x, y, dx, dy):
+        lead = [w - nwx] if w != dwx else []
+        return lead + [x, y, "rmoveto", dx, "hlineto", dy, "vlineto", -dx, "hlineto", "endchar"]
+
+    widths = [dwx, rnd.randint(5, 9) * 100 + 50, rnd.randint(2, 4) * 100 + 50, dwx]
+    flat = [
+        box(widths[0], 50, 0, 400, 700),
+        box(widths[1], 40, 0, rnd.randint(300, 600), rnd.randint(500, 700)),
+        box(widths[2], 100, rnd.randint(500, 650), rnd.randint(100, 200), rnd.randint(60, 160)),
+        box(widths[3], 60, 0, 350, 450),
+    ]
+    none = {"n": 0, "programs": [], "bias": 107}
+    cff = {"kind": "font", "dwx": dwx, "nwx": nwx, "flat": flat, "sub": flat, "lsubrs": none, "gsubrs": none}
+    # accent building with an explicit width operand, base and accent with real outlines
+    seac = {"kind": "cff", "cff": cff, "names": [".notdef", "A", "grave", "B", "Agrave"], "use_subrs": False, "extras": {}, "pinned": "seac",
+            "seac": {"adx": rnd.randint(-50, 250), "ady": rnd.randint(0, 120), "explicit": True, "width": widths[1] + 50}}
+    return [seac]
 
 
 def build(spec):
